@@ -726,6 +726,28 @@ W.contract(Contract('ENFA.get_difference', [('self', ENFA), ('other', ENFA)], re
                                     ForAll([p], Implies(e.other.Q[p], e.get('$old.other').Q[p])),
                                     ForAll([a], e.other.Sig[a] == Or(And(e.get('$old.other').Sig[a], e.other.Sig[a]), done[a])))}))
 
+# ------------------------------------------------------------------ is_acyclic: the answer False is sound
+# The search keeps pairs (state, set of the states on the path that led to it).  Proved: every pair in the work list has a state reachable from a start
+# state and every state of its path set is itself reachable and reaches the state of the pair in at least one step; hence when the state is found in
+# its own path set (answer False) there is a cycle reachable from a start state.  The converse (answer True => no reachable cycle, i.e. the search is
+# exhaustive) is NOT under contract: bounded stand-in only.
+W.empty_in_tuple = SetSt
+PairSV = TTuple(St, SetSt); BagSV = TBag(PairSV)
+def reachable(A, s): return Exists([p], And(A.I[p], ReachA(A.T.term, p, s)))
+def reach_plus(A, x_, s): return Exists([y, a], And(A.T[x_, a, y], ReachA(A.T.term, y, s)))          # at least one step
+vis_ = Const('vis_', SetSt.sort())
+def item_ok(A, s, vis): return And(reachable(A, s), ForAll([x], Implies(Select(vis, x), And(reachable(A, x), reach_plus(A, x, s)))))
+def items_ok(A, tp): return ForAll([q, vis_], Implies(tp[PairSV.make(_0=Sym(St, q), _1=Sym(SetSt, vis_)).term] > 0, item_ok(A, q, vis_)))
+def acy_inner(e, done):
+    A, cur = e.self, e.current.term
+    return And(items_ok(A, e.to_process), reachable(A, cur), e.visited[cur], ForAll([x], Implies(And(e.visited[x], x != cur), And(reachable(A, x), reach_plus(A, x, cur)))))
+W.contract(Contract('ENFA.is_acyclic', [('self', ENFA)], ret=TBool, requires=lambda o: WF(o.self),
+    ensures=lambda o, r, n: Implies(Not(r.term), Exists([x], And(reachable(o.self, x), reach_plus(o.self, x, x)))),
+    locals={'to_process': BagSV},
+    loops={'0': lambda e, done: items_ok(e.self, e.to_process),
+           '1': lambda e, done: items_ok(e.self, e.to_process),
+           '1.0': acy_inner, '1.0.0': acy_inner, '1.1': acy_inner}))
+
 # ------------------------------------------------------------------ operator forms: one-line delegations with the postcondition (and ghosts) of the method they call
 def delegate(alias, to, **kw):
     c = W.contracts[to]
@@ -759,6 +781,7 @@ TARGETS.update({'NFA.accepts': (_PN, 'NondeterministicFiniteAutomaton.accepts'),
                 'DFA.accepts': (_PD, 'DeterministicFiniteAutomaton.accepts'), 'DFA.is_deterministic': (_PD, 'DeterministicFiniteAutomaton.is_deterministic')})
 TARGETS.update({f'ENFA.{m}': (_PF, f'FiniteAutomaton.{m}') for m in ['_get_next_states_from', '_get_reachable_states', '_get_states_leading_to_final']})
 TARGETS.update({'ENFA.to_fst': (_PF, 'FiniteAutomaton.to_fst')})
+TARGETS.update({'ENFA.is_acyclic': (_PF, 'FiniteAutomaton.is_acyclic')})
 TARGETS.update({f'ENFA.{m}': (_P, f'EpsilonNFA.{m}') for m in ['__neg__', '__and__', '__sub__', '__invert__', '__copy__', '__bool__']})
 TARGETS.update({'DFA.copy': (_PD, 'DeterministicFiniteAutomaton.copy'), 'DFA.to_deterministic': (_PD, 'DeterministicFiniteAutomaton.to_deterministic'),
                 'NFA.to_deterministic': (_PN, 'NondeterministicFiniteAutomaton.to_deterministic')})
@@ -769,6 +792,8 @@ VERIFIED_ELSEWHERE = {'Namer.get_merged': 'contracts.fa_namer (StateNamer._get)'
 # ------------------------------------------------------------------ engine self-test (thorough tier): edits that must / must not break a proof
 _E = 'pyformlang/finite_automaton/epsilon_nfa.py'; _FA = 'pyformlang/finite_automaton/finite_automaton.py'
 SMOKE = [
+    ('ENFA.is_acyclic', _FA, "            if current in visited:\n                return False", "            if current not in visited:\n                return False", 'break'),
+    ('ENFA.is_acyclic', _FA, "                    to_process.append((state, visited.copy()))\n            # Epsilon", "                    to_process.append((state, visited))\n            # Epsilon", 'break'),
     ('ENFA.eclose', _E, "                    to_process.append(conn_state)", "                    pass", 'break'),
     ('ENFA.is_empty', _E, "            for state in self._transition_function(current, Epsilon()):\n                if state not in processed:\n                    to_process.append(state)\n                    processed.add(state)\n        return True", "        return True", 'break'),
     ('ENFA.get_complement', _E, "            if state in finals:\n                enfa.remove_final_state(state)", "            if state not in finals:\n                enfa.remove_final_state(state)", 'break'),
